@@ -39,12 +39,12 @@ type T1 { x_: Int }
 type Q { _e(f: _Filter): _Entity u: _U s: _Scope t1: T1 n: _Node }
 schema { query: Q }
 """
-DEPR_SDL = """
-enum E { A B @deprecated C @deprecated(reason: "no C") }
+DEPR_SDL = r"""
+enum E { A B @deprecated C @deprecated(reason: "no C") D @deprecated(reason: "obsolète\n\"utiliser\" A ☃ \\o/") }
 interface I { x: Int old: Int @deprecated }
 type T implements I { x: Int old: Int @deprecated(reason: "gone") e: E hidden: Int @nonIntrospectable }
 union U = T
-input In { a: Int = 3 b: [String!] = ["x"] c: E = B d: In }
+input In { a: Int = 3 b: [String!] = ["x", "déjà \"vu\"", "naïve\nligne\t日本"] c: E = B d: In s: String = "café \\ \"q\" €" }
 type Query { t(i: In = {a: 1}, n: Int = null): T u: U i: I secret: String @nonIntrospectable }
 """
 
